@@ -67,10 +67,10 @@ Proof. exact every_site_sound. Qed.
 Print Assumptions C05_every_site_sound.
 
 (* the guards admit the syntactic classes of the lexer theorems *)
-Theorem C05_guard_dq_esc : forall slot file p, no_bs_nl p = true -> slot_guard (mk CDQ SEsc slot file) p = true.
+Theorem C05_guard_dq_esc : forall slot file p, no_bs_nl p = true -> no_linesep p = true -> slot_guard (mk CDQ SEsc slot file) p = true.
 Proof. exact guard_dq_esc. Qed.
 Print Assumptions C05_guard_dq_esc.
-Theorem C05_guard_dq_none : forall slot file p, plain_dq p = true -> slot_guard (mk CDQ SNone slot file) p = true.
+Theorem C05_guard_dq_none : forall slot file p, plain_dq p = true -> no_linesep p = true -> slot_guard (mk CDQ SNone slot file) p = true.
 Proof. exact guard_dq_none. Qed.
 Print Assumptions C05_guard_dq_none.
 Theorem C05_guard_sq_repr : forall slot file p, repr_printable p = true -> slot_guard (mk CSQ SRepr slot file) p = true.
@@ -141,6 +141,13 @@ Theorem C05_nul_char_refuted :
   slot_guard (mk CDQ SEsc "Schema.properties.key@model" "models/*.py") [97; 0] = false.
 Proof. exact nul_char_refuted. Qed.
 Print Assumptions C05_nul_char_refuted.
+
+Theorem C05_linesep_newline_refuted :
+  slot_guard (mk CDQ SEsc "Schema.properties.key@model" "models/*.py") [97; 8232; 98] = false /\
+  no_bs_nl [97; 8232; 98] = true /\
+  lex_body DQ ([97; 10; 98] ++ [DQ]) = None.
+Proof. exact linesep_newline_refuted. Qed.
+Print Assumptions C05_linesep_newline_refuted.
 
 Theorem C05_dq_trailing_backslash_refuted : exists s, lex_body DQ (escape_dq s ++ [DQ]) = None.
 Proof. exact dq_trailing_backslash_refuted. Qed.
